@@ -33,11 +33,11 @@ ASSUMPTIONS = [
     "in-situ events whose inputs are not finite (optimiser diverged) are counted, not judged; pure-phase conservation is judged with apply_fov_mask and identical_slices off",
 ]
 BUDGET = {"quick": {"soft_s": 110, "workers": 14}, "thorough": {"soft_s": 800, "workers": 14}}
-MIN_EVALUATIONS = {"quick": 300, "thorough": 3000}
+MIN_EVALUATIONS = {"quick": 3000, "thorough": 30000}
 REQUIRED_COUNTERS = [
     "eval:translation_energy", "eval:translation_additivity", "eval:integer_shift_not_roll", "eval:propagator_not_unit_modulus", "eval:propagator_additivity",
     "eval:propagation_energy", "eval:propagation_inverse", "eval:scatter_not_adjoint", "eval:pure_phase_intensity_not_conserved",
-    "eval:projection_amplitude_mismatch", "eval:projection_not_idempotent", "eval:detector_parseval",
+    "eval:projection_amplitude_mismatch", "eval:projection_not_idempotent", "eval:detector_parseval", "insitu_cases_completed",
 ]
 
 T64 = 1e-10
@@ -48,18 +48,15 @@ PHASE_TOL = 5e-5  # x (1+max phase): float32 rounding of the propagator phase (m
 
 def plan(tier, seed):
     q = tier == "quick"
-    n = {"insitu": 28 if q else 420, "chain": 42 if q else 600, "projection": 168 if q else 2400, "translate": 420 if q else 6000,
-         "propagate": 280 if q else 4000, "adjoint": 280 if q else 4000, "detector": 84 if q else 1200}
-    specs = []
-    for kind in ("insitu", "chain"):  # expensive cases first: never skipped by the soft budget
-        specs += [{"kind": kind, "i": i} for i in range(n[kind])]
+    n = {"insitu": 112 if q else 1120, "chain": 280 if q else 2800, "projection": 840 if q else 8400, "translate": 2100 if q else 21000,
+         "propagate": 1400 if q else 14000, "adjoint": 1400 if q else 14000, "detector": 420 if q else 4200}
     rest = []
-    for kind in ("projection", "translate", "propagate", "adjoint", "detector"):
+    for kind in ("projection", "translate", "propagate", "adjoint", "detector", "chain"):
         rest += [{"kind": kind, "i": i} for i in range(n[kind])]
-    # deterministic interleave so every worker sees every kind
+    # deterministic interleave so every worker sees every kind; the cheap direct cases come first (seconds in total), the
+    # in-situ reconstructions last, spread evenly over the workers (round-robin sharding)
     order = np.random.default_rng([seed, 16, 4242]).permutation(len(rest))
-    specs += [rest[j] for j in order]
-    return specs
+    return [rest[j] for j in order] + [{"kind": "insitu", "i": i} for i in range(n["insitu"])]
 
 
 # ------------------------------------------------------------------------------------------------
@@ -632,9 +629,10 @@ def _run_insitu(spec, idx, ctx):
     before = {k: ctx.counters.get(k, 0) for k in ("eval:pure_phase_intensity_not_conserved", "eval:projection_amplitude_mismatch", "eval:translation_energy", "eval:detector_parseval")}
     st["live"] = L
     try:
-        insitu.run_hostile(pt, num_iters=3 if ctx.tier == "quick" else 5, lr_obj=lr_o, lr_probe=lr_p, batch_size=bs, autograd=autograd, opt="adam" if autograd else "sgd")
+        insitu.run_hostile(pt, num_iters=5 if ctx.tier == "quick" else 8, lr_obj=lr_o, lr_probe=lr_p, batch_size=bs, autograd=autograd, opt="adam" if autograd else "sgd")
     finally:
         st["live"] = None
+    ctx.count("insitu_cases_completed")
     fired = {k.replace("eval:", ""): ctx.counters.get(k, 0) - v for k, v in before.items()}
     ctx.nontrivial(("insitu", ot, S, M, _par(roi), "ad" if autograd else "gd"), off_circle >= 0.5 and sum(fired.values()) > 0)
     ctx.observe(scene=sc.describe(), autograd=autograd, batch=bs, lr=[lr_o, lr_p], monitor_events=fired, final_loss=float(pt.iter_losses[-1]) if len(pt.iter_losses) else None,
